@@ -435,7 +435,7 @@ func genKv(r *rand.Rand, tier string) kvInput {
 			vp := genViewParams(r)
 			in.Ops = append(in.Ops, Step{Kind: "view", Coll: cn, Handle: h, DDoc: pick(r, []string{"dd", "dd", "dd", "dd", "dd2"}), View: fmt.Sprintf("v%d", r.Intn(3)), VP: vp, Clock: next()})
 		case x == 9 && in.OnDisk:
-			in.Ops = append(in.Ops, Step{Kind: "reopen", Clock: next()})
+			in.Ops = append(in.Ops, Step{Kind: "reopen", CreateOrOpen: r.Intn(2) == 0, Clock: next()})
 		case x >= 4 && x <= 7:
 			st := Step{Kind: "dump", Coll: pick(r, live), Key: pick(r, hot), Start: pick(r, []string{"zero", "current", "current", "stale", "bogus"}), Clock: next()}
 			if r.Intn(3) == 0 {
@@ -513,7 +513,9 @@ func genMotif(r *rand.Rand, m int, in *kvInput, exists map[string]bool, hot []st
 		in.Ops = append(in.Ops, Step{Kind: "view", Coll: cn, Handle: hh, DDoc: "dd", View: name, VP: vp, Clock: next()})
 	}
 	xattrWrite := func() *KOp {
-		switch r.Intn(4) {
+		switch r.Intn(5) {
+		case 4:
+			return &KOp{Kind: "DeleteSubDocPaths", Names: []string{pick(r, kvXnames)}}
 		case 0:
 			return &KOp{Kind: "SetXattrs", Xs: genXs(r, false)}
 		case 1:
@@ -663,7 +665,7 @@ func genMotif(r *rand.Rand, m int, in *kvInput, exists map[string]bool, hot []st
 		kv(&KOp{Kind: "Set", Val: sp(pick(r, jsonBodies))})
 		in.Ops = append(in.Ops, Step{Kind: "drop", Coll: "s1.c2", Handle: r.Intn(in.Handles), Clock: same()})
 		exists["s1.c2"] = false
-		in.Ops = append(in.Ops, Step{Kind: "reopen", Clock: same()})
+		in.Ops = append(in.Ops, Step{Kind: "reopen", CreateOrOpen: r.Intn(2) == 0, Clock: same()})
 		cn = "_default._default"
 		in.Ops = append(in.Ops, Step{Kind: "kv", Coll: cn, Key: key, Handle: 0, Op: &KOp{Kind: "Set", Val: sp(pick(r, jsonBodies))}, Clock: same()})
 		if r.Intn(2) == 0 {
